@@ -7,7 +7,7 @@ from lib.core import exc_name, idset
 ID = "C18"
 AUDIT_IMPORTS = ["HypatiaProofs.Properties.C18"]
 THEOREMS = ["Hyp.Alias." + t for t in ("c18_okapi_apply_target_fresh", "c18_cosine_apply_target", "c18_scan_forward_target_fresh", "c18_docids_may_be_stored", "c18_negate_may_be_stored", "c18_docids_fresh_otherwise", "c18_query_union_aliases")]
-CASES = {"quick": 320, "thorough": 60000}
+CASES = {"quick": 400, "thorough": 60000}
 BUDGET_S = {"quick": 50, "thorough": 780}
 BATCH = 10
 RULE = ("sessions on a catalog with field, keyword, facet, Okapi-text and cosine-text indexes (tree_threshold 2, "
